@@ -21,6 +21,13 @@
 (*          quantified by the scenarios; EnvModify/EnvAdd/EnvDelete are    *)
 (*          what the harness did ("modified_at only moves forward to a     *)
 (*          fresh now": t >= now, now non-decreasing, ties allowed)        *)
+(*   "when fetching ... any collection page fails the sweep ends ..."       *)
+(*   (third sentence; coordinator's reading: every GET of the collections  *)
+(*   list API that EachCollection issues - the initial count, every page,  *)
+(*   the final count - is such a fetch)                                    *)
+(*          ReqFail records that the harness made a list request fail      *)
+(*          (HTTP 500, transport error, body cut short);                   *)
+(*          Finish(TRUE) requires that no list request failed              *)
 (* Nothing else is demanded: Deliver is unconstrained (duplicates, deleted *)
 (* or added collections may or may not be delivered), Finish(FALSE) is     *)
 (* always allowed.                                                         *)
@@ -42,9 +49,10 @@ VARIABLES db,         \* set of <<t, u>> : the collection table now
           everseen,   \* uuids that ever existed
           everdel,    \* uuids deleted during the scan
           delivered,  \* uuids handed to the callback
-          fin         \* "no" | "ok" | "err"
+          fin,        \* "no" | "ok" | "err"
+          reqfailed   \* the harness made one of the scan's list requests fail
 
-cvars == <<db, now, trashed, oldver, init0, everseen, everdel, delivered, fin>>
+cvars == <<db, now, trashed, oldver, init0, everseen, everdel, delivered, fin, reqfailed>>
 
 Uuids(tbl) == {c[2] : c \in tbl}
 
@@ -58,6 +66,7 @@ CInit(tbl, n, tr, ov) ==
     /\ everdel = {}
     /\ delivered = {}
     /\ fin = "no"
+    /\ reqfailed = FALSE
 
 Throughout == init0 \ everdel
 
@@ -70,7 +79,7 @@ EnvModify(u, t) ==
     /\ t >= now
     /\ db' = {c \in db : c[2] # u} \cup {<<t, u>>}
     /\ now' = t
-    /\ UNCHANGED <<trashed, oldver, init0, everseen, everdel, delivered, fin>>
+    /\ UNCHANGED <<trashed, oldver, init0, everseen, everdel, delivered, fin, reqfailed>>
 
 \* k = 0 ordinary, 1 trashed, 2 past version
 EnvAdd(u, t, k) ==
@@ -82,14 +91,14 @@ EnvAdd(u, t, k) ==
     /\ everseen' = everseen \cup {u}
     /\ trashed' = IF k = 1 THEN trashed \cup {u} ELSE trashed
     /\ oldver' = IF k = 2 THEN oldver \cup {u} ELSE oldver
-    /\ UNCHANGED <<init0, everdel, delivered, fin>>
+    /\ UNCHANGED <<init0, everdel, delivered, fin, reqfailed>>
 
 EnvDelete(u) ==
     /\ fin = "no"
     /\ u \in Uuids(db)
     /\ db' = {c \in db : c[2] # u}
     /\ everdel' = everdel \cup {u}
-    /\ UNCHANGED <<now, trashed, oldver, init0, everseen, delivered, fin>>
+    /\ UNCHANGED <<now, trashed, oldver, init0, everseen, delivered, fin, reqfailed>>
 
 --------------------------------------------------------------------------
 (* Faithful list API.  A filter is <<attr, op, v>>, attr "modified_at" or  *)
@@ -146,18 +155,24 @@ Count(flt, it, io, n) ==
 Deliver(u) ==
     /\ fin = "no"
     /\ delivered' = delivered \cup {u}
-    /\ UNCHANGED <<db, now, trashed, oldver, init0, everseen, everdel, fin>>
+    /\ UNCHANGED <<db, now, trashed, oldver, init0, everseen, everdel, fin, reqfailed>>
+
+\* the harness answered a list request of the scan with a failure
+ReqFail ==
+    /\ fin = "no"
+    /\ reqfailed' = TRUE
+    /\ UNCHANGED <<db, now, trashed, oldver, init0, everseen, everdel, delivered, fin>>
 
 Finish(ok) ==
     /\ fin = "no"
-    /\ ok => Throughout \subseteq delivered
+    /\ ok => (Throughout \subseteq delivered /\ ~reqfailed)
     /\ fin' = IF ok THEN "ok" ELSE "err"
-    /\ UNCHANGED <<db, now, trashed, oldver, init0, everseen, everdel, delivered>>
+    /\ UNCHANGED <<db, now, trashed, oldver, init0, everseen, everdel, delivered, reqfailed>>
 
 CTypeOK == /\ fin \in {"no", "ok", "err"}
            /\ now \in Nat
            /\ Cardinality(Uuids(db)) = Cardinality(db)     \* one row per uuid
 
 \* the property, as a state predicate
-Complete == fin = "ok" => Throughout \subseteq delivered
+Complete == fin = "ok" => (Throughout \subseteq delivered /\ ~reqfailed)
 =============================================================================
